@@ -154,6 +154,7 @@ prchunk_fill(prch_ctx_t ctx)
 #define CHUNK_SIZE	(4096)
 #endif	/* DATEUTILS_VERIF */
 #define YIELD(x)	goto yield##x
+#define MAP_LEN		(MAX_NLINES * MAX_LLEN)
 	char *off = ctx->buf + 0;
 	char *bno = ctx->buf + ctx->bno;
 	ssize_t nrd;
@@ -171,7 +172,7 @@ prchunk_fill(prch_ctx_t ctx)
 	} else if (LIKELY(ctx->bno > ctx->off)) {
 		size_t rsz = ctx->bno - ctx->off;
 		/* move the top RSZ bytes to the beginning */
-		memcpy(ctx->buf, ctx->buf + ctx->off, rsz);
+		memmove(ctx->buf, ctx->buf + ctx->off, rsz);
 		ctx->bno = rsz;
 		bno = ctx->buf + rsz;
 	} else if (UNLIKELY(ctx->bno == ctx->off)) {
@@ -184,8 +185,21 @@ prchunk_fill(prch_ctx_t ctx)
 	}
 
 yield1:
+	if (UNLIKELY(bno + CHUNK_SIZE >= ctx->buf + MAP_LEN)) {
+		/* window full, hand out what we have, the rest moves to
+		 * the front next time; a line longer than the window is
+		 * handed out in pieces */
+		if (!ctx->tot_lno) {
+			set_loff(ctx, ctx->tot_lno++, bno - ctx->buf);
+			*bno = '\0';
+			off = bno;
+		}
+		YIELD(3);
+	}
 	/* read CHUNK_SIZE bytes */
-	bno += (nrd = read(ctx->fd, bno, CHUNK_SIZE));
+	if ((nrd = read(ctx->fd, bno, CHUNK_SIZE)) > 0) {
+		bno += nrd;
+	}
 	/* if we came from yield2 then off == __ctx->bno, and if we
 	 * read 0 or less bytes then off >= __ctx->bno + nrd, so we
 	 * can simply use that compact expression if the buffer has no
@@ -194,15 +208,15 @@ yield1:
 	 * has been called, then off would be 0 and __ctx->bno would be
 	 * the buffer filled so far, if no more bytes could be read then
 	 * we'd proceed processing them (off < __ctx->bno + nrd */
-	if (UNLIKELY(!nrd && off < bno && ctx->cur_lno <= ctx->tot_lno)) {
+	if (UNLIKELY(nrd <= 0 && off < bno &&
+		     memchr(off, '\n', bno - off) == NULL)) {
+	last:
 		/* last line then, unyielded :| */
 		set_loff(ctx, ctx->tot_lno, bno - ctx->buf);
+		*bno = '\0';
 		off = bno;
-		/* count it as line and check if we need more */
-		if (++ctx->tot_lno >= MAX_NLINES) {
-			YIELD(3);
-		}
-		YIELD(4);
+		ctx->tot_lno++;
+		YIELD(3);
 	} else if (UNLIKELY(nrd <= 0 && off == ctx->buf)) {
 		/* special case, we worked our arses off and nothing's
 		 * in the pipe line so just fuck off here */
@@ -224,12 +238,12 @@ yield2:
 			if (LIKELY(nrd > 0)) {
 				break;
 			}
-			/* not concluded with \n, let's hope we're in drain mode */
-			return -1;
+			/* not concluded with \n, and nothing more to come */
+			goto last;
 		}
 		/* massage our status structures */
 		set_loff(ctx, ctx->tot_lno, p - ctx->buf);
-		if (UNLIKELY(p[-1] == '\r')) {
+		if (UNLIKELY(p > ctx->buf && p[-1] == '\r')) {
 			/* oh god, when is this nightmare gonna end */
 			p[-1] = '\0';
 			set_lftermd(ctx, ctx->tot_lno);
@@ -246,7 +260,6 @@ yield3:
 	/* need clean up, something like unread(),
 	 * in particular leave a note in __ctx with the left over offset */
 	ctx->cur_lno = 0;
-yield4:
 	ctx->off = off - ctx->buf;
 	ctx->bno = bno - ctx->buf;
 #undef YIELD
@@ -261,7 +274,6 @@ init_prchunk(int fd)
 {
 #define MAP_MEM		(MAP_ANON | MAP_PRIVATE)
 #define PROT_MEM	(PROT_READ | PROT_WRITE)
-#define MAP_LEN		(MAX_NLINES * MAX_LLEN)
 	static struct prch_ctx_s __ctx;
 
 	__ctx.buf = mmap(NULL, MAP_LEN, PROT_MEM, MAP_MEM, -1, 0);
